@@ -459,7 +459,13 @@ func isPad(s string) bool {
 }
 
 // Alpha abstracts an observed Go value; strict.
-func (u *Universe) Alpha(x interface{}) V {
+func (u *Universe) Alpha(x interface{}) V { return u.alphaDepth(x, 0) }
+
+// a value that contains itself (only a defect can build one) is "unknown", not a stack overflow of the harness
+func (u *Universe) alphaDepth(x interface{}, depth int) V {
+	if depth > 200 {
+		return V{"unknown", "nested beyond 200 levels"}
+	}
 	switch v := x.(type) {
 	case nil:
 		return V{"nil"}
@@ -508,7 +514,7 @@ func (u *Universe) Alpha(x interface{}) V {
 	case []interface{}:
 		out := make([]interface{}, 0, len(v))
 		for _, e := range v {
-			out = append(out, u.Alpha(e))
+			out = append(out, u.alphaDepth(e, depth+1))
 		}
 		return V{"arr", out}
 	case map[string]interface{}:
@@ -519,7 +525,7 @@ func (u *Universe) Alpha(x interface{}) V {
 		sort.Strings(keys) // bytewise; TLC re-checks the order (WFValue)
 		out := make([]interface{}, 0, len(v))
 		for _, k := range keys {
-			out = append(out, []interface{}{B(k), u.Alpha(v[k])})
+			out = append(out, []interface{}{B(k), u.alphaDepth(v[k], depth+1)})
 		}
 		return V{"obj", out}
 	}
